@@ -96,6 +96,14 @@ def patch_source(src, entries, fname='?'):
             raise ExtractionError("%s:%s: anchor %r matched %d times (must be exactly 1)"
                                   % (fname, e['function'], e['anchor'], len(ms)))
         m = ms[0]
+        if 'cover' in e:
+            # reachability probe (vacuity guard INSIDE an abstracted loop body / behind a replaced callee):
+            # a statement inserted right after the matched text, which must end a statement or open/close a block.
+            # V_PROBE(x) expands to x only in the cover build (spec/verif_prelude.h), to nothing otherwise.
+            if body[m.end() - 1] not in ';{}':
+                raise ExtractionError("%s:%s: probe anchor %r must end in ';', '{' or '}'" % (fname, e['function'], e['anchor']))
+            inserts.append((b + m.end(), ' V_PROBE(__CPROVER_assert(!(%s), "COVER probe:%s")); ' % (e['cover'], e.get('name', '?'))))
+            continue
         # find the first '(' at/after match start, then its closing ')'
         i = body.find('(', m.start())
         if i < 0:
